@@ -2,6 +2,28 @@ use crate::variables::Primitive::*;
 use crate::*;
 use anyhow::{bail, Context, Result};
 
+/// Left shift that is `None` when the shift amount is out of range (like `checked_shl`)
+/// and also when a bit is shifted out of the type: `1 << 31` is not an `int`, it
+/// overflows just as `1073741824 * 2` does.
+trait ExactShl: Sized {
+    fn exact_shl(self, amount: u32) -> Option<Self>;
+}
+
+macro_rules! impl_exact_shl {
+    ($($ty:ty),+) => {
+        $(
+            impl ExactShl for $ty {
+                fn exact_shl(self, amount: u32) -> Option<Self> {
+                    let shifted = self.checked_shl(amount)?;
+                    (shifted >> amount == self).then_some(shifted)
+                }
+            }
+        )+
+    };
+}
+
+impl_exact_shl!(i32, i128, u8);
+
 macro_rules! generic_bitop {
     (@tests $name:ident $symbol:tt) => {
         #[cfg(test)]
@@ -108,5 +130,5 @@ macro_rules! generic_bitop {
 generic_bitop!(BitAnd::bitand, &);
 generic_bitop!(BitOr::bitor, |);
 generic_bitop!(BitXor::bitxor, ^);
-generic_bitop!(@checked Shl::shl, <<, safe=checked_shl);
+generic_bitop!(@checked Shl::shl, <<, safe=exact_shl);
 generic_bitop!(@checked Shr::shr, >>, safe=checked_shr);
